@@ -19,6 +19,16 @@ func main() {
 	switch *mode {
 	case "sess":
 		runSess(*script, *outp, *stateIn, *stateOut, *from)
+	case "pw":
+		runPw(*script, *outp)
+	case "ids":
+		runIds(*script, *outp)
+	case "codec":
+		runCodec(*script, *outp)
+	case "mx":
+		runMx(*script, *outp)
+	case "conc":
+		runConc(*script, *outp)
 	default:
 		fmt.Fprintln(os.Stderr, "unknown mode", *mode)
 		os.Exit(2)
